@@ -53,3 +53,94 @@ def register(reg):
       },
       raises={"C15.entry-rejection-is-validation-error": "exc_is(ValidationError)",
               "C06.rejected-setitem-leaves-dict": DSAME + " and " + UNCH})
+    # ---------------------------------------------------------------- more dict / list operations (C17)
+    OTHERS_SAME = 'forall("k:key", "implies(k != loc_key, has(self, k) == old(has(self, k)) and get(self, k) == old(get(self, k)))")'
+    C("fields.dict_field:DictProxy.setdefault", params={"key": "any", "value": "any"}, returns="any", modifies=MOD + ["dict:self"], assumes=HASF,
+      ensures={
+          "C17.setdefault-looks-up-the-normalised-key": "entry_norm(self, key, value, loc_key, loc_value) and has(self, loc_key) and result == get(self, loc_key)",
+          "C17.setdefault-keeps-every-present-value": 'forall("k:key", "implies(old(has(self, k)), has(self, k) and get(self, k) == old(get(self, k)))")',
+          "C17.setdefault-adds-at-most-the-normalised-entry": 'forall("k:key", "implies(not old(has(self, k)) and has(self, k), k == loc_key and get(self, k) == loc_value)")',
+          "C17.setdefault-length-as-builtin": "old(len(self)) <= len(self) and len(self) <= old(len(self)) + 1",
+          "C01.an-added-entry-satisfies-key-and-value-fields": 'forall("k:key", "implies(not old(has(self, k)) and has(self, k), (k is None or accepts(self.dict_field.key_field, k)) and (get(self, k) is None or accepts(self.dict_field.value_field, get(self, k))))")',
+          "C13.nothing-else-changes": "heap_unchanged(%s, %s, self)" % (LINKS_ATTRS, KS),
+      },
+      raises={"C15.entry-rejection-is-validation-error": "exc_is(ValidationError)",
+              "C06.rejected-setdefault-leaves-dict": DSAME + " and " + UNCH})
+    POS = "ite(index < 0, index + old(len(self)), index)"
+    C("fields.list_field:ListProxy.__setitem__", params={"index": "int", "item": "any"}, modifies=MOD + ["list:self"],
+      ensures={
+          "C17.index-assignment-as-builtin": "len(self) == old(len(self)) and 0 <= %s and %s < len(self) and item_norm(self, item, self[%s]) and " % (POS, POS, POS)
+                                             + 'forall("j:int", "implies(0 <= j and j < len(self) and j != %s, self[j] == old(self[j]))")' % POS,
+          "C01.assigned-item-satisfies-the-item-field": ITEM_OK % {"V": "self[%s]" % POS},
+          "C13.nothing-else-changes": "heap_unchanged(%s, %s, self)" % (LINKS_ATTRS, KS),
+      },
+      raises={"C06.rejected-assignment-leaves-list": "len(self) == old(len(self)) and %s and %s" % (SAME_PREFIX, UNCH)})
+    # ---------------------------------------------------------------- bulk list operations (C17): sequences only
+    # (any other iterable -- iterators, generators, views -- stays with the bounded driver)
+    EXT_INV = {
+        "as-builtin-so-far": "len(self) == old(len(self)) + I and typeis(iterable, 'ref:list|ref:tuple') and iterable is not self and seq_len(iterable) == N and " + SAME_PREFIX
+                             + ' and forall("j:int", "implies(0 <= j and j < I, item_norm(self, seq_item(iterable, j), self[old(len(self)) + j]))")',
+        "plain-items-so-far-satisfy-the-item-field": 'forall("j:int", "implies(0 <= j and j < I and typeis(self.list_field.field, \'ref:Field\'), self[old(len(self)) + j] is None or accepts(self.list_field.field, self[old(len(self)) + j]))")',
+        "frame": "heap_unchanged(%s, %s, self)" % (LINKS_ATTRS, KS),
+    }
+    # the items of a proxy of the same configuration and item field are taken over as they are (plain values only)
+    RAW = ("(typeis(iterable, 'ref:ListProxy') and iterable.cfg is self.cfg and iterable.list_field.field is self.list_field.field"
+           " and typeis(self.list_field.field, 'ref:Field'))")
+    C("fields.list_field:ListProxy.extend", params={"iterable": "ref:list|ref:tuple"}, modifies=MOD + ["list:self"],
+      invariants={0: EXT_INV},
+      ensures={
+          "C17.extend-as-builtin": "len(self) == old(len(self)) + old(seq_len(iterable)) and " + SAME_PREFIX,
+          "C17.extended-by-the-normalised-items-in-order": 'implies(iterable is not self and not %(RAW)s, forall("j:int", "implies(0 <= j and j < seq_len(iterable), item_norm(self, seq_item(iterable, j), self[old(len(self)) + j]))"))' % {"RAW": RAW},
+          "C17.a-proxy-of-the-same-list-kind-is-taken-over-as-it-is": 'implies(iterable is not self and %(RAW)s, forall("j:int", "implies(0 <= j and j < seq_len(iterable), self[old(len(self)) + j] == seq_item(iterable, j))"))' % {"RAW": RAW},
+          "C01.added-plain-items-satisfy-the-item-field": 'implies(iterable is not self and not %(RAW)s, forall("j:int", "implies(0 <= j and j < seq_len(iterable) and typeis(self.list_field.field, \'ref:Field\'), self[old(len(self)) + j] is None or accepts(self.list_field.field, self[old(len(self)) + j]))"))' % {"RAW": RAW},
+          "C13.nothing-else-changes": "heap_unchanged(%s, %s, self)" % (LINKS_ATTRS, KS),
+      },
+      raises={"C17.a-rejected-extend-keeps-what-the-list-held": "len(self) >= old(len(self)) and %s and heap_unchanged(%s, %s, self)" % (SAME_PREFIX, LINKS_ATTRS, KS)})
+    C("fields.list_field:ListProxy.__iadd__", params={"iterable": "ref:list|ref:tuple"}, returns="ref:ListProxy", modifies=MOD + ["list:self"],
+      ensures={
+          "C17.iadd-is-extend-and-returns-the-list": "result is self and len(self) == old(len(self)) + old(seq_len(iterable)) and " + SAME_PREFIX,
+          "C17.extended-by-the-normalised-items-in-order": 'implies(iterable is not self and not %(RAW)s, forall("j:int", "implies(0 <= j and j < seq_len(iterable), item_norm(self, seq_item(iterable, j), self[old(len(self)) + j]))"))' % {"RAW": RAW},
+          "C13.nothing-else-changes": "heap_unchanged(%s, %s, self)" % (LINKS_ATTRS, KS),
+      },
+      raises={"C17.a-rejected-iadd-keeps-what-the-list-held": "len(self) >= old(len(self)) and %s and heap_unchanged(%s, %s, self)" % (SAME_PREFIX, LINKS_ATTRS, KS)})
+    # construction from nothing or from a sequence
+    SRC_LEN = "ite(iterable is None, 0, seq_len(iterable))"
+    RAW0 = RAW.replace("self.cfg", "cfg").replace("self.list_field.field", "list_field.field")
+    INIT_INV = {
+        "as-builtin-so-far": "len(self) == I and self.cfg is cfg and self.list_field is list_field and typeis(iterable, 'ref:list|ref:tuple') and iterable is not self and seq_len(iterable) == N"
+                             ' and forall("j:int", "implies(0 <= j and j < I, item_norm(self, seq_item(iterable, j), self[j]))")',
+        "plain-items-so-far-satisfy-the-item-field": 'forall("j:int", "implies(0 <= j and j < I and typeis(list_field.field, \'ref:Field\'), self[j] is None or accepts(list_field.field, self[j]))")',
+        "frame": "heap_unchanged(%s, %s, self)" % (LINKS_ATTRS, KS),
+        "nothing-validated-nothing-touched": "implies(I == 0, heap_unchanged(self))",
+    }
+    C("fields.list_field:ListProxy.__init__", params={"cfg": "ref:Config", "list_field": "ref:ListField", "iterable": "none|ref:list|ref:tuple"}, modifies=MOD + ["self.*", "list:self"],
+      requires={"a-new-list": "fresh(self) or True", "not-itself": "iterable is not self"},
+      invariants={0: INIT_INV},
+      ensures={
+          "C17.built-like-the-builtin": "self.cfg is cfg and self.list_field is list_field and len(self) == old(%s)" % SRC_LEN,
+          "C17.holds-the-normalised-items-in-order": 'implies(iterable is not None and not %(RAW)s, forall("j:int", "implies(0 <= j and j < seq_len(iterable), item_norm(self, seq_item(iterable, j), self[j]))"))' % {"RAW": RAW0},
+          "C17.a-proxy-of-the-same-list-kind-is-copied-as-it-is": 'implies(iterable is not None and %(RAW)s, forall("j:int", "implies(0 <= j and j < seq_len(iterable), self[j] == seq_item(iterable, j))"))' % {"RAW": RAW0},
+          "C01.plain-items-satisfy-the-item-field": 'implies(iterable is not None and not %(RAW)s, forall("j:int", "implies(0 <= j and j < seq_len(iterable) and typeis(list_field.field, \'ref:Field\'), self[j] is None or accepts(list_field.field, self[j]))"))' % {"RAW": RAW0},
+          "C13.nothing-else-changes": "heap_unchanged(%s, %s, self)" % (LINKS_ATTRS, KS),
+          "C13.an-empty-list-touches-nothing": "implies(old(%s) == 0, heap_unchanged(self))" % SRC_LEN,
+      },
+      raises={"C13.nothing-else-changes": "heap_unchanged(%s, %s, self)" % (LINKS_ATTRS, KS),
+              "C13.an-empty-list-touches-nothing": "implies(old(%s) == 0, heap_unchanged(self))" % SRC_LEN})
+    C("fields.list_field:ListProxy.copy", params={}, returns="ref:ListProxy", modifies=["fresh", "ncalls"],
+      requires={"A.list-field-has-an-item-field": "truthy(self.list_field.field)"},
+      ensures={
+          "C17.copy-is-a-new-typed-list-with-the-same-items": "fresh(result) and result is not self and exact_class(result, 'ListProxy') and result.cfg is self.cfg and result.list_field is self.list_field"
+                                                              ' and len(result) == len(self) and forall("j:int", "implies(0 <= j and j < len(self), result[j] == self[j])")',
+          "C13.copy-changes-nothing": "heap_unchanged()",
+      },
+      raises={"C13.copy-changes-nothing": "heap_unchanged()"})
+    C("fields.list_field:ListProxy.__add__", params={"iterable": "ref:list|ref:tuple"}, returns="ref:ListProxy", modifies=MOD,
+      requires={"A.list-field-has-an-item-field": "truthy(self.list_field.field)"},
+      ensures={
+          "C17.concatenation-is-a-new-typed-list": "fresh(result) and result is not self and exact_class(result, 'ListProxy') and result.cfg is self.cfg and result.list_field is self.list_field"
+                                                   ' and len(result) == len(self) + seq_len(iterable) and forall("j:int", "implies(0 <= j and j < len(self), result[j] == self[j])")',
+          "C17.concatenation-validates-the-right-operand": 'implies(iterable is not self and not %(RAW)s, forall("j:int", "implies(0 <= j and j < seq_len(iterable), item_norm(result, seq_item(iterable, j), result[len(self) + j]))"))' % {"RAW": RAW},
+          "C17.concatenation-leaves-the-operands-alone": "heap_unchanged(%s, %s)" % (LINKS_ATTRS, KS),
+      },
+      raises={"C17.concatenation-leaves-the-operands-alone": "heap_unchanged(%s, %s)" % (LINKS_ATTRS, KS)})
+
